@@ -235,7 +235,8 @@ let cmd_inv (ps : int) (files : string list) : unit =
     let reach = match o with
       | Codec.Ok o -> fmt_res fmt_ids (Tree.bucket_pages (nat_of_int (int_of_n o.Tree.o_meta.Meta.m_np)) rd p o.Tree.o_meta.Meta.m_np o.Tree.o_meta.Meta.m_root)
       | Codec.Bad _ -> "-" in
-    Printf.printf "%s inv:%s %s reach:%s %s\n" f inv meta reach dump) files
+    let chk = fmt_res (fun _ -> "ok") (CheckM.check_m rd p) in
+    Printf.printf "%s inv:%s checkm:%s %s reach:%s %s\n" f inv chk meta reach dump) files
 
 (* ---------- cursor model on a real file (C08 / C07 correspondence) ---------- *)
 let rec find_bucket (rd : Codec.reader) (p : coq_N) (np : coq_N) (root : coq_N) (path : string list) : Tree.tree Codec.res =
